@@ -53,6 +53,11 @@ CFG = {
         "Swat4.C16.pop_complete_backed",
         "Swat4.C16.runner_is_model",
         "Swat4.C16.runner_complete_backed",
+        # progress surrogate: every chain of retries for one mark ends (prober batches alone, explicit scheduling hypotheses)
+        "Swat4.C16.probe_progress",
+        "Swat4.C16.Progress.batch_pot",
+        "Swat4.C16.Progress.probe_step_progress",
+        "Swat4.C16.Progress.popMany_fit",
         "Swat4.C16.facts_item_id_uses",
     ],
     "shards": (1, 16),
